@@ -633,7 +633,9 @@ func leafGenBase(k *compKind, n *schemaNode) func(t *rapid.T) Val {
 		case key == "max_version":
 			return func(t *rapid.T) Val { return vStr(rapid.SampledFrom([]string{"1.2", "1.3"}).Draw(t, key)) }
 		case key == "balancer_name":
-			return func(t *rapid.T) Val { return vStr(rapid.SampledFrom([]string{"round_robin", "pick_first"}).Draw(t, key)) }
+			return func(t *rapid.T) Val {
+				return vStr(rapid.SampledFrom([]string{"round_robin", "pick_first"}).Draw(t, key))
+			}
 		case key == "encoding":
 			return func(t *rapid.T) Val { return vStr(rapid.SampledFrom([]string{"json", "console"}).Draw(t, key)) }
 		case strings.HasSuffix(key, "_file"):
